@@ -131,7 +131,7 @@ def proof_stage(pid):
     if len(blocks) < len(theorems):
         res["errors"].append("%d theorems but only %d Print Assumptions audits" % (len(theorems), len(blocks)))
     res["discharged"] = min(closed, len(theorems))
-    if pid in ("C08", "C15"):
+    if pid in ("C08", "C15", "C16"):
         # the lexer's tables, translated from /repo/libvore/ast/lexer.go on every run, against the model's tables
         lt = lexer_tables(args)
         res["theorems"] = res["theorems"] + lt["theorems"]
